@@ -160,12 +160,12 @@ type LinkCfg struct {
 
 type WorldCfg struct {
 	// BasePath of every top-level store (default ["root"]). Deeper paths exercise path slices with spare capacity.
-	BasePath []string   `json:"basePath,omitempty"`
+	BasePath []string `json:"basePath,omitempty"`
 	// LazyBuckets: the entity buckets are not created up front; a store in which nothing was ever created has none
-	LazyBuckets bool `json:"lazyBuckets,omitempty"`
-	Stores   []StoreCfg `json:"stores"`
-	Children []ChildCfg `json:"children,omitempty"`
-	Links    []LinkCfg  `json:"links,omitempty"`
+	LazyBuckets bool       `json:"lazyBuckets,omitempty"`
+	Stores      []StoreCfg `json:"stores"`
+	Children    []ChildCfg `json:"children,omitempty"`
+	Links       []LinkCfg  `json:"links,omitempty"`
 }
 
 type World struct {
